@@ -561,9 +561,73 @@ struct GP
     }
 };
 
+// ---------------------------------------------------------------------------------------------------
+// emit mode for the compiled tier (E9): generate grammars + inputs + expected results with the same generators and reference.
+// Output: one JSON document {"cases":[{grammar, strategy, class, inputs:[{hex, ws, nl, accept, value, messages}]}]}
+static int emit_cases(const eng::Args& a)
+{
+    std::string params = "seed=" + std::to_string(a.seed) + " max_success=" + std::to_string(a.cases * 60) + " max_size=" + std::to_string(a.size) + " max_shrinks=0";
+    setenv("RC_PARAMS", params.c_str(), 1);
+    vj::Value cases = vj::Value::array(); size_t want = size_t(a.cases); std::set<uint64_t> seen;
+    size_t per_class[3] = {0, 0, 0};
+    rc::check("emit", [&]()
+    {
+        auto bytes = *rc::gen::container<std::vector<uint8_t>>(rc::gen::arbitrary<uint8_t>());
+        if (cases.size() >= want) return;
+        Choice ch(bytes);
+        int cls = int(ch.weighted({5, 3, 3}));      // 0 conflict-free, 1 precedence (S/R), 2 recovery
+        GCase c; c.tmpl = 0;
+        c.g = gg::gen_grammar(ch, cls == 0 ? gg::CONFLICT_FREE : cls == 1 ? gg::PRECEDENCE : gg::RECOVERY, c.strategy, tpl::t36_slots());
+        Grammar& g = c.g;
+        if (g.rules.size() < 3 || g.rules.size() > 9) return;
+        // compiled programs use the default functor only where it means "pass the nonterminal's value on"
+        for (auto& r : g.rules) if (r.passthrough && !(r.rhs.size() == 1 && !r.rhs[0].term)) r.passthrough = false;
+        // drop unused nonterminals' rules? no: unused symbols are part of the domain. But every nonterminal that is used must have been declared: all N0..N5 are.
+        Prepared pr; pr.an = ref::analyse(g); pr.table = ref::build_lr1(g, pr.an, 120);
+        if (pr.table.states.size() > 100 || pr.table.cells.size() != pr.table.states.size()) return;
+        if (pr.table.has_rr) return;
+        if (cls == 0 && !pr.table.conflict_free()) return;
+        if (cls == 1 && (!pr.table.has_sr || g.uses_error())) return;
+        if (cls == 2 && !g.uses_error()) return;
+        if (per_class[cls] * 2 > want + 2) return;
+        { int reach = 0; for (int n = 0; n < g.nN; ++n) if (pr.an.reachable[size_t(n)]) ++reach; if (reach < 2 && !pr.an.left_rec && !pr.an.right_rec) return; }
+        if (!seen.insert(g.hash()).second) return;
+        eng::Rng rng = ch.fork();
+        std::vector<gg::Input> all; gg::gen_inputs(g, pr.an, rng, 30, 10, all);
+        // keep a varied subset: accepted, syntactically wrong at different positions, lexically wrong, empty, whitespace only
+        std::vector<gg::Input> keep; std::set<std::string> texts;
+        auto add = [&](const gg::Input& in) { if (in.text.size() <= 40 && texts.insert(in.text).second) keep.push_back(in); };
+        for (size_t i = all.size(); i-- > 0 && keep.size() < 14;) add(all[i]);       // random derivations and mutants come last in `all`
+        for (size_t i = 0; i < all.size() && keep.size() < 22; i += 1 + rng.below(3)) add(all[i]);
+        { gg::Input in; in.text = "  \n\t "; add(in); in.text = ""; add(in); }
+        for (int k = 0; k < 3 && !keep.empty(); ++k) { gg::Input in = keep[rng.below(uint32_t(keep.size()))]; in.text.insert(in.text.begin() + rng.below(uint32_t(in.text.size() + 1)), "z!@"[rng.below(3)]); add(in); }
+        for (int k = 0; k < 2 && !keep.empty(); ++k) { gg::Input in = keep[rng.below(uint32_t(keep.size()))]; if (rng.chance(1, 2)) in.skip_nl = false; else in.skip_ws = false; in.text += rng.chance(1, 2) ? "\n a" : " b"; keep.push_back(in); }
+        vj::Value ins = vj::Value::array(); size_t nacc = 0, nrej = 0;
+        for (auto& in : keep)
+        {
+            Expect e = expect_for(pr, in);
+            if (e.rr.looped || e.rr.hit_rr) continue;
+            vj::Value x = vj::Value::object(); x.set("hex", vj::hex(in.text)); x.set("text", in.text); x.set("ws", in.skip_ws); x.set("nl", in.skip_nl);
+            x.set("accept", e.rr.accepted); x.set("value", std::to_string((unsigned long long)e.rr.value));
+            std::string msgs; for (auto& m : expected_msgs(g, e)) { msgs += "[" + std::to_string(m.line) + ":" + std::to_string(m.col) + "] PARSE: " + (m.kind == 0 ? "Syntax error: Unexpected '" + m.s + "'" : "Unexpected character: " + m.s) + "\n"; }
+            x.set("messages_hex", vj::hex(msgs)); x.set("tokens", (unsigned long long)e.L.toks.size()); x.set("max_depth", (unsigned long long)e.rr.max_depth);
+            x.set("kind", e.rr.accepted ? (e.rr.error_tokens.empty() ? "accepted" : "accepted-after-recovery") : (e.rr.lex_error_reached ? "lexical-failure" : "syntax-failure"));
+            ins.push(x); if (e.rr.accepted) ++nacc; else ++nrej;
+        }
+        if (nacc == 0 || nrej == 0) return;
+        vj::Value o = vj::Value::object(); o.set("grammar", ref::to_json(g)); o.set("strategy", c.strategy); o.set("class", cls == 0 ? "conflict-free" : cls == 1 ? "precedence" : "recovery"); o.set("inputs", ins);
+        o.set("lr1_states", (unsigned long long)pr.table.states.size());
+        cases.push(o); per_class[cls]++;
+    });
+    vj::Value doc = vj::Value::object(); doc.set("cases", cases);
+    if (!a.out.empty()) vj::save(a.out, doc); else printf("%s\n", doc.dump().c_str());
+    return cases.size() >= 1 ? 0 : 2;
+}
+
 int main(int argc, char** argv)
 {
     eng::Args a = eng::parse_args(argc, argv);
+    if (a.mode == "emit") return emit_cases(a);
     int rc = 2;
     tpl::on_big_stack([&]
     {
